@@ -29,30 +29,60 @@ func TestRegressC19KnownMarshalSignPlane(t *testing.T) {
 	}
 }
 
-func TestRegressC20KnownBSI32CompareMixedSigns(t *testing.T) {
+// known32CompareReproduces / known32MinMax* run the literal inputs of the known 32-bit findings. The
+// generators exclude those shapes only while the findings reproduce: once the library is repaired the
+// exclusions lift by themselves and the full domain is searched.
+func known32CompareReproduces() bool {
 	b := bsi32.NewDefaultBSI()
 	b.SetValue(1, -1000)
 	b.SetValue(2, 1)
 	got := b.CompareValue(1, bsi32.GT, -1, 0, nil).ToArray()
-	if len(got) != 1 || got[0] != 2 {
-		inst.Known("C20", "id=bsi32-compare-mixed-signs BitSliceIndexing.BSI.CompareValue LT/EQ/GT/RANGE is wrong when stored values and constants mix negative and non-negative numbers: GT -1 over {1:-1000, 2:1} does not return [2]")
-	}
+	return len(got) != 1 || got[0] != 2
 }
 
-func TestRegressC20KnownBSI32MinMax(t *testing.T) {
+func known32MinMaxMixedReproduces() bool {
 	b := bsi32.NewDefaultBSI()
 	b.SetValue(1, -1000)
 	b.SetValue(2, 1)
-	if b.MinMax(1, bsi32.MAX, nil) != 1 {
-		inst.Known("C20", "id=bsi32-minmax-mixed-signs BitSliceIndexing.BSI.MinMax is wrong when the found-set mixes negative and non-negative values: MAX over {1:-1000, 2:1} != 1")
-	}
+	return b.MinMax(1, bsi32.MAX, nil) != 1
+}
+
+func known32MinMaxSentinelReproduces() bool {
 	z := bsi32.NewBSI(255, 0)
 	z.SetValue(0, 0)
 	o := bsi32.NewDefaultBSI()
 	o.SetValue(1, 3)
 	o.SetValue(2, 3)
-	if z.MinMax(1, bsi32.MAX, nil) != 0 || o.MinMax(1, bsi32.MIN, nil) != 3 {
-		inst.Known("C20", "id=bsi32-minmax-sentinel BitSliceIndexing.BSI.MinMax returns its start sentinel when every value equals the sentinel's low bits: MAX over {0:0} = MinInt64, MIN over {1:3, 2:3} = MaxInt64")
+	return z.MinMax(1, bsi32.MAX, nil) != 0 || o.MinMax(1, bsi32.MIN, nil) != 3
+}
+
+func known64MarshalReproduces() bool {
+	b := roaring64.NewDefaultBSI()
+	b.SetValue(1, -5)
+	data, err := b.MarshalBinary()
+	if err != nil {
+		return true
+	}
+	n := roaring64.NewDefaultBSI()
+	if err := n.UnmarshalBinary(data); err != nil {
+		return true
+	}
+	v, ok := n.GetValue(1)
+	return !ok || v != -5
+}
+
+func TestRegressC20BSI32CompareMixedSigns(t *testing.T) {
+	if known32CompareReproduces() { // fixed in 048f1c6: a fixed finding suppresses nothing
+		t.Fatalf("BitSliceIndexing.BSI.CompareValue is wrong again for mixed signs: GT -1 over {1:-1000, 2:1} does not return [2]")
+	}
+}
+
+func TestRegressC20BSI32MinMax(t *testing.T) {
+	if known32MinMaxMixedReproduces() { // fixed in fc630c0
+		t.Fatalf("BitSliceIndexing.BSI.MinMax is wrong again for mixed signs: MAX over {1:-1000, 2:1} != 1")
+	}
+	if known32MinMaxSentinelReproduces() { // fixed in fc630c0
+		t.Fatalf("BitSliceIndexing.BSI.MinMax returns its start sentinel again: MAX over {0:0} = MinInt64 or MIN over {1:3, 2:3} = MaxInt64")
 	}
 }
 
